@@ -179,6 +179,9 @@ class LaTeXRenderer(BaseRenderer):
                     '{inner}'
                     '\\end{{document}}\n')
         self.footnotes.update(token.footnotes)
+        # the preamble lists the packages needed by this document only,
+        # not by documents rendered earlier with the same renderer
+        self.packages = {}
         return template.format(inner=self.render_inner(token),
                                packages=self.render_packages())
 
